@@ -506,4 +506,37 @@ func (it *Interp) opQueryDeadTarget(op *Op) {
 		q := b.flt[op.F].Query(b.rels(f.List(), op.QRels))
 		q.Close()
 	})
+	// The ID-based filter does not check its targets. No entity has a removed entity as target, so such a query either
+	// panics or is empty - also when the ID of the removed entity is in use again (by an entity that is itself a target).
+	for _, b := range it.B {
+		for _, r := range op.QRels {
+			if it.M.targetOK(r.T) {
+				continue
+			}
+			id := b.IDs[r.C]
+			dead := b.handle(r.T)
+			var n, cnt int
+			var first ecs.Entity
+			p := try(func() {
+				q := ecs.NewUnsafeFilter(b.W, id).Query(ecs.RelID(id, dead))
+				cnt = q.Count()
+				for q.Next() {
+					if n == 0 {
+						first = q.Entity()
+					}
+					n++
+				}
+			})
+			if b.W.IsLocked() != (it.M.OpenQ > 0) {
+				fail("query|dead-target|unsafe-lock", "%s step %d: an ID-based query with the removed target %v left the world locked (panic: %v)", b.Name, it.Step, dead, p)
+			}
+			if p == nil && (n != 0 || cnt != 0) {
+				fail("query|dead-target|unsafe-yields", "%s step %d: ID-based query for %s with the removed entity %v as target counts %d and visits %d entities (first %v)", b.Name, it.Step, comps.All[r.C].Name, dead, cnt, n, first)
+			}
+			it.count("unsafe-query-with-dead-target")
+			if it.staleClass(r.T) == "dead-id-reused" {
+				it.count("unsafe-query-with-dead-target-id-recycled")
+			}
+		}
+	}
 }
